@@ -19,6 +19,9 @@ def layouts(thorough):
         ('empty-then-covering', [dict(window=(t(2), t(2)), tests=lite), dict(window=(t(0), t(9)), tests=lite)]),
         ('two-half-open', [dict(window=(None, t(2)), tests=lite), dict(window=(t(2), None), tests={'a': ['gross', 'roc'], 'b': ['flat']})]),
         ('three-contexts', [dict(window=(None, t(1)), tests=lite), dict(window=(t(1), t(4)), tests=lite), dict(window=(t(4), None), tests=lite)]),
+        # the same window listed in non-adjacent positions (a config assembled from several sources): every listing counts
+        ('same-window-around-another', [dict(window=(t(0), t(2)), tests={'a': ['gross']}), dict(window=(t(2), t(5)), tests={'a': ['gross', 'spike']}),
+                                        dict(window=(t(0), t(2)), tests={'a': ['spike'], 'b': ['flat']})]),
         # stream b is configured only in a context whose window is empty: it still gets its (entirely uncovered) result
         ('empty-window-only-for-b', [dict(window=(t(0), t(3)), tests={'a': ['gross', 'spike']}), dict(window=(t(2), t(2)), tests={'b': ['flat']})]),
     ]
